@@ -171,6 +171,9 @@ inductive Op where
   | read (id n : Nat)
   /-- `Response.Body.Close` -/
   | close (id : Nat)
+  /-- a `cc.cond.Broadcast()` with no other effect (any wake-up of the goroutines sleeping on
+  `cc.cond`, spurious ones included): a `RoundTrip` waiting for a stream slot looks again -/
+  | wake
   | peer (f : PFrame)
   deriving DecidableEq, Repr, Inhabited
 
@@ -582,6 +585,7 @@ def apply (st : State) : Op → State × List Frame
   | .cancel id => cancel st id
   | .read id n => read st id n
   | .close id => close st id
+  | .wake => (st, [])
   | .peer f => peer st f
 
 /-- does the operation end with a `cc.cond.Broadcast()` (which is what lets a `RoundTrip`
@@ -592,6 +596,12 @@ def wakes (st st1 : State) : Op → Bool
   | .peer (.windowUpdate id _) =>
     id == 0 || (match findStream st.streams id with | some s => s.live | none => false)
   | .peer (.settings vals) => vals.any (·.1 == sInitialWindowSize)
+  | .wake => true
+  -- `transportResponseBody.Close` calls `abortStream` (which broadcasts) even when the stream
+  -- has long left `cc.streams`
+  | .close id =>
+    (match findStream st.streams id with | some s => s.gotHeaders && !s.noBody | none => false) ||
+    decide (liveCount st1.streams < liveCount st.streams)
   | _ => decide (liveCount st1.streams < liveCount st.streams)
 
 /-- one operation; a closed connection does nothing any more. -/
@@ -654,14 +664,18 @@ def pumpAll (st : State) : List Nat → State × List Frame
     let (st2, fs2) := pumpAll st1 ids
     (st2, fs1 ++ fs2)
 
-/-- a scripted operation followed by the pump. A `RoundTrip` that was waiting for a slot can
-start during the pump (a finished upload frees the slot): its stream is pumped in a second
-pass (streams are only ever appended). -/
+/-- a scripted operation as the script lane drives it: the operation, then a wake-up of
+whoever sleeps on `cc.cond` (the lane broadcasts itself after every operation, so that which
+operations happen to broadcast does not decide in which step a waiting `RoundTrip` goes ahead),
+then the pump. A `RoundTrip` that was waiting for a slot can also start during the pump (a
+finished upload frees the slot): its stream is pumped in a second pass (streams are only ever
+appended). -/
 def scriptStep (st : State) (op : Op) : State × List Frame :=
-  let (st1, fs1) := step st op
+  let (st0, fs0) := step st op
+  let (st1, fs1) := step st0 .wake
   let (st2, fs2) := pumpAll st1 (st1.streams.map (·.id))
   let (st3, fs3) := pumpAll st2 ((st2.streams.drop st1.streams.length).map (·.id))
-  (st3, fs1 ++ fs2 ++ fs3)
+  (st3, fs0 ++ fs1 ++ fs2 ++ fs3)
 
 def scriptRun (st : State) : List Op → List (List Frame × Bool × Bool)
   | [] => []
